@@ -197,6 +197,9 @@ def r10_1(ctx: Ctx, rule="R10.1"):
                     names = [norm(e) for e in tg.elts] if isinstance(tg, ast.Tuple) else [norm(tg)]
                     if a.id in names and not (isinstance(s.value, ast.Call) and call_name(s.value) == disp.name):
                         srcs |= {norm(x) for x in ast.walk(s.value) if isinstance(x, ast.Subscript) and norm(x.value) == MOLV[0]}
+        if a is not None and not isinstance(a, ast.Name):
+            # the positions handed over in place (`pair[1].atoms_positions`): read off the argument itself
+            srcs |= {norm(x) for x in ast.walk(a) if isinstance(x, ast.Subscript) and norm(x.value) == MOLV[0]}
         src[pname] = sorted(srcs)
     okb = src.get(dp[0]) == [(MOLV[0] + "[0]")] and src.get(dp[1]) == [(MOLV[0] + "[1]")] and norm(b.get("restriction")) == p_restr
     n += 1
